@@ -403,6 +403,11 @@ class Arbiter(object):
 
         # add watchers
         for n in added_wn:
+            if n.lower() in self._watchers_names:
+                # names are unique ignoring case (see add_watcher)
+                logger.error("watcher %r not added: %r already exists", n,
+                             self._watchers_names[n.lower()].name)
+                continue
             new_watcher_cfg = (self.get_plugin_config(new_cfg, n) or
                                self.get_watcher_config(new_cfg, n))
 
